@@ -1,20 +1,25 @@
 #!/bin/bash
-# tools/matrix.sh <property id> [names...]: run ./check <id> quick against each seeded change of that property; record the outcome in meta.json
+# tools/matrix.sh <property id> [names...]: run ./check <id> quick against each seeded change of that property and record
+# the outcome in meta.json. The patch is applied to a scratch worktree of /repo (VERIF_REPO points the check at it), so
+# /repo itself is never modified and checks running elsewhere are not disturbed.
 ID=$1; shift
+TIER=${TIER:-quick}
 NAMES=${@:-$(ls /verif/seeded | grep "^${ID}_\|-${ID}-")}
 for n in $NAMES; do
   P=/verif/seeded/$n/patch.diff
-  cd /repo && git diff --quiet || { echo "/repo not clean"; exit 3; }
-  git -C /repo apply $P || { echo "$n: patch does not apply"; continue; }
-  cd /verif && ./check $ID quick > /tmp/matrix_$n.out 2>&1; rc=$?
-  git -C /repo checkout -- .
+  W=$(mktemp -d /tmp/mx_XXXXXX); rmdir $W
+  git -C /repo worktree add -q --detach $W HEAD || { echo "$n: cannot create worktree"; continue; }
+  if ! git -C $W apply $P; then echo "$n: patch does not apply"; git -C /repo worktree remove --force $W; continue; fi
+  cd /verif && VERIF_REPO=$W ./check $ID $TIER > /tmp/matrix_$n.out 2>&1; rc=$?
+  git -C /repo worktree remove --force $W
+  git -C /verif checkout -- evidence/$ID.json 2>/dev/null
   v=$(grep -c '^VIOLATION' /tmp/matrix_$n.out)
   echo "$n: exit=$rc violations=$v $(grep -m1 -A1 '^VIOLATION' /tmp/matrix_$n.out | tail -1 | cut -c1-160)"
-  python3 - "$n" "$ID" "$rc" <<'PY'
+  python3 - "$n" "$ID" "$rc" "$TIER" <<'PY'
 import json,sys
-n,pid,rc=sys.argv[1:4]
+n,pid,rc,tier=sys.argv[1:5]
 p='/verif/seeded/%s/meta.json'%n
-m=json.load(open(p)); m.setdefault("detected_by",{})[pid+" quick"]={"exit":int(rc),"detected":rc=="1"}
+m=json.load(open(p)); m.setdefault("detected_by",{})[pid+" "+tier]={"exit":int(rc),"detected":rc=="1"}
 json.dump(m,open(p,'w'),indent=1)
 PY
 done
